@@ -713,14 +713,13 @@ Proof.
   destruct p as [|c r]; [discriminate|]. simpl. intros H U.
   apply N.eqb_eq in H. rewrite H in U. simpl in U.
   destruct (unescape m r); [|discriminate].
-  assert (E : (c_slash =? c_plus) = false) by reflexivity. rewrite E in U. simpl in U.
   inversion U; subst. simpl. rewrite H. reflexivity.
 Qed.
 
 Lemma slash_not_star dp : starts_with_slash dp = true -> str_eqb dp "*" = false.
 Proof.
-  destruct dp as [|c r]; [discriminate|]. simpl. intros H. apply N.eqb_eq in H.
-  apply str_eqb_neq. intros E. inversion E; subst. discriminate.
+  destruct dp as [|c r]; [discriminate|]. intros H.
+  apply str_eqb_neq. intros E. inversion E; subst. simpl in H. discriminate.
 Qed.
 
 Lemma slash_not_empty p : starts_with_slash p = true -> str_eqb p "" = false.
@@ -863,7 +862,7 @@ Proof.
   { destruct path as [|x r]; [discriminate Hsl|]. simpl in Hsl.
     simpl in C. destruct (code x =? c_qm) eqn:E.
     - apply N.eqb_eq in Hsl. rewrite Hsl in E. discriminate.
-    - destruct (cut c_qm r) as [[a b] f0]. inversion C; subst. exact Hsl. }
+    - destruct (cut c_qm r) as [[a b] f0]. injection C as C1 C2 C3. rewrite <- C1. exact Hsl. }
   assert (Hq : has_byte c_qm p = false).
   { destruct f'.
     - destruct (cut_rebuild _ _ _ _ C) as [c0 [_ [_ Ha]]]. exact Ha.
@@ -1213,4 +1212,18 @@ Proof.
     {| o_host := "http://h"; o_path := "/b"; o_rawquery := "id=x&admin=true&s=1";
        o_frag := ""; o_wire := "/b?id=x&admin=true&s=1" |}.
   vm_compute. repeat split; reflexivity.
+Qed.
+
+(* the request target carries the generated path byte for byte whenever that path is a valid
+   escaped path (in particular: %2F stays %2F, ! ' ( ) * [ ] stay raw) *)
+Lemma wire_exact hosts h path q c pp sq f :
+  In h hosts -> nodup_keys q = true -> has_byte c_hash path = false ->
+  assemble h path q = Some c -> cut c_qm path = (pp, sq, f) -> valid_encoded MPath pp = true ->
+  exists f', cut c_qm (o_wire c) = (pp, o_rawquery c, f').
+Proof.
+  intros Hh Hn Hf A C V.
+  pose proof (assemble_url_ok hosts h path q c Hh Hn Hf A) as U.
+  unfold url_ok in U. rewrite C in U. destruct U as [_ [_ [_ [_ W]]]].
+  unfold wire_ok in W. destruct (cut c_qm (o_wire c)) as [[wp wq] f'].
+  rewrite V in W. destruct W as [W1 W2]. subst. eauto.
 Qed.
